@@ -29,7 +29,7 @@ def run(ctx):
     ctx.rule(D5, 'AHBM units: Read32 / WriteInternal advance the burst address by 1/2/4 for U8/U16/U32 with the matching alignment '
                  'mask; burst sizes are 1/4/8; the AHBM channel of a DMA channel is the first whose connect mask has that bit set', floor=4)
     dodma = ctx.fn(D + '::DoDma(unsigned short)')
-    start = F.get(CH + '::Start()')
+    start = ctx.fn_opt(CH + '::Start()')
     start_inlined = start is None        # Start() written out in its only caller: DoDma itself initialises the cursors
     if start_inlined:
         start = dodma
